@@ -1022,6 +1022,18 @@ def _is_triples_key(obj, key, pool, nodes=None):
     for i in range(len(parts) - 1, 0, -1):
         pre = "__".join(parts[:i])
         if pre in nodes:
+            # duplicate component names: the replacement goes to the FIRST item of that name, a nested key to the
+            # LAST one (dict semantics), so the value installed by this call is not the receiver
+            try:
+                parent = obj
+                for p_ in parts[:i - 1]:
+                    parent = parent.get_params(deep=True)[p_]
+                nm_ = pool.get(type(parent).__name__, {}).get("named")
+                names_ = [t[0] for t in (getattr(parent, nm_) or [])] if nm_ else []
+                if names_.count(parts[i - 1]) > 1:
+                    continue
+            except Exception:
+                pass
             cur = nodes[pre]
             for p in parts[i:-1]:
                 cur = _node_child(cur, p, pool) if cur is not None else None
